@@ -37,7 +37,8 @@ CMPS = [("Eq", "==", "CEq"), ("NotEq", "!=", "CNe"), ("Lt", "<", "CLt"), ("LtE",
 DENOMS = {"wei": 1, "gwei": 10**9, "ether": 10**18, "kether": 10**21, "szabo": 10**12}
 EXPS = [0, 1, 2, 3, 5, 7, 8, 15, 16, 31, 32, 63, 64, 127, 128, 129, 255, 256, 257, 1000, -1, -2]
 
-COQ_PRELUDE = """From Verif Require Import Base.PyInt C17.ArithSpec C17.GenFold C17.FoldModel.
+COQ_PRELUDE = """From Verif Require Import Base.PyInt C17.ArithSpec C17.ConvSpec C17.GenFold C17.FoldModel C17.ConvModel.
+Definition encl (r : res (list Z)) : list Z := match r with Ok l => 1 :: l | Err _ => [0] end.
 Definition enc (r : res Z) : list Z := match r with Ok v => [1; v] | Err _ => [0; 0] end.
 Definition encb (r : res bool) : list Z := match r with Ok b => [1; PyInt.b2z b] | Err _ => [0; 0] end.
 Definition enco (r : option Z) : list Z := match r with Some v => [1; v] | None => [0; 0] end.
@@ -64,6 +65,99 @@ def pairs_out(flat, k=1):
     """[f1; v1; f2; v2; ...] -> list of k-tuples of (None | v)"""
     vals = [(flat[i + 1] if flat[i] == 1 else None) for i in range(0, len(flat), 2)]
     return [tuple(vals[i:i + k]) for i in range(0, len(vals), k)]
+
+
+def lists_out(flat, n):
+    """decode a concatenation of `encl` results, each [0] or 1 :: l, where every l is terminated by -1"""
+    out, i = [], 0
+    while i < len(flat):
+        if flat[i] == 0:
+            out.append(None)
+            i += 2
+        else:
+            j = flat.index(-1, i)
+            out.append(flat[i + 1:j])
+            i = j + 1
+    assert len(out) == n, (len(out), n)
+    return out
+
+
+def _node(txt):
+    from vyper import ast as vy_ast
+    return vy_ast.parse_to_ast("x = " + txt).body[0].value
+
+
+def conversion_jobs(ctx, g, rnd):
+    """model-tie jobs for the hand models of ConvModel.v against the real functions, called directly"""
+    from vyper.builtins._convert import _literal_decimal, _literal_int
+    from vyper.semantics.types import BoolT, BytesM_T, DecimalT, IntegerT
+    jobs = []
+    tys = CORE_TYPES + rnd.sample([t for t in ALL_TYPES if t not in CORE_TYPES], 3 if ctx.tier == "quick" else 20)
+
+    def real_lit_int(txt, at, T):
+        with warnings.catch_warnings():
+            warnings.simplefilter("ignore")
+            try:
+                return "ok", _literal_int(_node(txt), at, IntegerT(T[0], T[1])).value
+            except Exception as e:
+                return "err", type(e).__name__
+
+    # Int literals
+    ints = sorted(set(g[::2] + [0, 1, -1, 127, 128, -128, -129, 255, 256, 2**255 - 1, 2**255, -(2**255), 2**256 - 1]))
+    cases = [(v, int(T[0]), T[1]) for T in tys for v in ints]
+    jobs.append(("convert:int", cases, "flat_map (fun p => enc (literal_int (LInt (p1 p)) (mk_ity (negb (p2 p =? 0)) (p3 p)))) " + triples(cases),
+                 lambda c: real_lit_int(str(c[0]), IntegerT(True, 256), (bool(c[1]), c[2])), "direct"))
+    # Decimal literals (scaled): around every integer boundary of the target type and around zero
+    D = 10**10
+    cases = []
+    for T in tys:
+        lo, hi = P.bounds(T)
+        vs = {0, 1, -1, D - 1, D, -D + 1, -D, 15 * D // 10, -15 * D // 10, 5, -5}
+        for b in (lo, hi):
+            vs |= {b * D, b * D + 1, b * D - 1, b * D + D - 1, b * D - D + 1, b * D + D, b * D - D}
+        vs = {v for v in vs if -(2**167) <= v < 2**167}
+        cases += [(v, int(T[0]), T[1]) for v in sorted(vs)]
+    jobs.append(("convert:decimal", cases, "flat_map (fun p => enc (literal_int (LDec (p1 p)) (mk_ity (negb (p2 p =? 0)) (p3 p)))) " + triples(cases),
+                 lambda c: real_lit_int(P.dec_lit(c[0]).strip("()"), DecimalT(), (bool(c[1]), c[2])), "direct"))
+    # hex (bytesM) literals: m bytes; packed as val * 64 + m in the first component
+    cases = []
+    for T in tys:
+        for m in sorted({1, 2, T[1] // 8, min(32, T[1] // 8 + 1), 32, rnd.randrange(1, 33)}):
+            for val in sorted({0, 1, 2 ** (8 * m - 1) - 1, 2 ** (8 * m - 1), 2 ** (8 * m) - 1, 2 ** (8 * m) - 2, rnd.randrange(2 ** (8 * m))}):
+                cases.append((val * 64 + m, int(T[0]), T[1]))
+    jobs.append(("convert:hex", cases, "flat_map (fun p => enc (literal_int (LHex (p1 p mod 64) (p1 p / 64)) (mk_ity (negb (p2 p =? 0)) (p3 p)))) " + triples(cases),
+                 lambda c: real_lit_int("0x" + (c[0] // 64).to_bytes(c[0] % 64, "big").hex(), BytesM_T(c[0] % 64), (bool(c[1]), c[2])), "direct"))
+    cases = [(b, int(T[0]), T[1]) for T in tys for b in (0, 1)]
+    jobs.append(("convert:bool", cases, "flat_map (fun p => enc (literal_int (LBool (negb (p1 p =? 0))) (mk_ity (negb (p2 p =? 0)) (p3 p)))) " + triples(cases),
+                 lambda c: real_lit_int("True" if c[0] else "False", BoolT(), (bool(c[1]), c[2])), "direct"))
+
+    def real_lit_dec(v):
+        try:
+            return "ok", _literal_decimal(_node(str(v)), IntegerT(True, 256), DecimalT()).value
+        except Exception as e:
+            return "err", type(e).__name__
+    q = (2**167 - 1) // D
+    cases = [(v,) for v in sorted({0, 1, -1, 7, -7, q, q + 1, q - 1, -q, -q - 1, -q - 2, -q + 1, 2**127, -(2**127), 2**255, -(2**255), 2**256 - 1, rnd.randrange(-q, q)})]
+    jobs.append(("convert:int->decimal", cases, "flat_map (fun p => enc (literal_decimal (p1 p))) " + triples(cases), lambda c: real_lit_dec(c[0]), "direct"))
+    # list-literal indexing through the real ConstantFolder
+    l = [7, 2**255, 9, 0]
+    cases = [(i,) for i in (-2, -1, 0, 1, 2, 3, 4, 5, 2**255)]
+    jobs.append(("list-index", cases, f"flat_map (fun p => enc (fold_index {coqrun.zlist(l)} (p1 p))) " + triples(cases),
+                 lambda c: f"[{', '.join(map(str, l))}][{c[0]}]", "int"))
+    # uint2str through the real folder
+    cases = [(v,) for v in sorted({0, 1, 9, 10, 11, 99, 100, 101, 255, 256, 10**18, 10**77, 10**77 - 1, 2**256 - 1, 2**128, rnd.randrange(2**256), rnd.randrange(10**9)})]
+
+    def real_u2s(c):
+        st, v = real_fold(f"uint2str({c[0]})")
+        return (st, [ord(ch) for ch in v]) if st == "ok" else (st, v)
+    jobs.append(("uint2str", cases, "flat_map (fun p => encl (uint2str_fold (p1 p)) ++ [-1]) " + triples(cases), real_u2s, "direct-list"))
+    # min_value / max_value for every integer type
+    cases = [(int(T[0]), T[1]) for T in ALL_TYPES]
+    jobs.append(("min_value", cases, "flat_map (fun p => enc (min_value_fold (mk_ity (negb (p1 p =? 0)) (p2 p)))) " + triples(cases),
+                 lambda c: f"min_value({P.tname((bool(c[0]), c[1]))})", "int"))
+    jobs.append(("max_value", cases, "flat_map (fun p => enc (max_value_fold (mk_ity (negb (p1 p =? 0)) (p2 p)))) " + triples(cases),
+                 lambda c: f"max_value({P.tname((bool(c[0]), c[1]))})", "int"))
+    return jobs
 
 
 def coq_eval(name, exprs):
@@ -98,7 +192,8 @@ def part_proofs(ctx):
     except Unsupported as e:
         return {"ok": False, "gen": False, "err": str(e)}, None
     (COQ / "C17" / "GenFold.v").write_text(text)
-    b = ctx.coq_build(["C17/ArithSpec.v", "C17/GenFold.v", "C17/FoldModel.v", "C17/FoldAgree.v", "C17/PropsFold.v"])
+    b = ctx.coq_build(["C17/ArithSpec.v", "C17/ConvSpec.v", "C17/GenFold.v", "C17/FoldModel.v", "C17/FoldAgree.v", "C17/PropsFold.v",
+                        "C17/ConvModel.v", "C17/ConvAgree.v", "C17/PropsConv.v"])
     b["gen"] = True
     return b, info
 
@@ -160,9 +255,15 @@ def part_model_tie(ctx):
     jobs.append(("as_wei_value", cases, f"flat_map (fun p => enc (AsWeiValue_fold (p2 p) (p1 p) 0)) {triples(cases)}",
                  lambda c: f"as_wei_value({c[0]}, '{units[c[2]]}')", "int"))
     # decimals (hand model)
-    dg = sorted({0, 1, -1, 7, -7, 10**10, -(10**10), 15 * 10**9, -25 * 10**9, 3 * 10**10 + 1, 10**10 - 1, 2**167 - 1, -(2**167),
-                 2**100, -(2**100) + 12345, rnd.randrange(-(2**167), 2**167), rnd.randrange(-(10**15), 10**15),
-                 rnd.randrange(-(10**12), 10**12)})
+    # decimals (hand model): boundary grid = range ends +-1 ulp, unit / sub-unit / repeating-quotient values of both signs,
+    # square roots of the range (products at the overflow edge), powers of ten around the scaling factor
+    D = 10**10
+    dg = {0, 1, -1, 2, -2, 3, -3, 7, -7, 9, D - 1, D, D + 1, -D + 1, -D, -D - 1, 15 * D // 10, -25 * D // 10, 3 * D + 1, D // 3, -(D // 3), 2 * D // 3,
+          D // 7, 10 * D, 100 * D, -(10**5), 10**5, 10**5 + 1, 99999, 2**167 - 1, 2**167 - 2, -(2**167), -(2**167) + 1, 2**166, -(2**166), 2**100, -(2**100) + 12345,
+          2**83, -(2**83), 2**84 - 1, 13_67_77_14_21 * 10**15, (2**167 - 1) // D * D, -((2**167) // D) * D, (2**167 - 1) // D, 3333333333, -6666666667}
+    if ctx.tier == "quick":
+        dg = set(rnd.sample(sorted(dg), 16)) | {0, 1, -1, D, -D, 3, -7, 2**167 - 1, -(2**167), D // 3}
+    dg = sorted(dg | {rnd.randrange(-(2**167), 2**167), rnd.randrange(-(10**15), 10**15), rnd.randrange(-(10**12), 10**12)})
     for nm, sym, con in [("dec+", "+", "DAdd"), ("dec-", "-", "DSub"), ("dec*", "*", "DMul"), ("dec/", "/", "DDiv"), ("dec%", "%", "DMod")]:
         cases = [(a, b) for a in dg for b in dg]
         jobs.append((nm, cases, f"flat_map (fun p => enc (dec_fold {con} (p1 p) (p2 p)) ++ enc (dtyped (dec_fold {con} (p1 p) (p2 p)))) {triples(cases)}",
@@ -171,17 +272,18 @@ def part_model_tie(ctx):
     jobs.append(("floor", cases, f"flat_map (fun p => enc (floor_fold (p1 p))) {triples(cases)}", lambda c: f"floor({P.dec_lit(c[0])})", "int"))
     jobs.append(("ceil", cases, f"flat_map (fun p => enc (ceil_fold (p1 p))) {triples(cases)}", lambda c: f"ceil({P.dec_lit(c[0])})", "int"))
 
+    jobs += conversion_jobs(ctx, g, rnd)
     outs = coq_eval("c17tie", [j[2] for j in jobs])
     n = 0
     broken = []
     dist = {}
     for (form, cases, _, pyf, kind), flat in zip(jobs, outs):
         k = 2 if kind == "dec" else 1
-        model = pairs_out(flat, k)
+        model = lists_out(flat, len(cases)) if kind == "direct-list" else pairs_out(flat, k)
         assert len(model) == len(cases), (form, len(model), len(cases))
         bad = None
         for c, m in zip(cases, model):
-            st, v = real_fold(pyf(c))
+            st, v = pyf(c) if kind.startswith("direct") else real_fold(pyf(c))
             n += 1
             if kind == "bool" and st == "ok":
                 v = int(bool(v))
@@ -192,6 +294,8 @@ def part_model_tie(ctx):
                     ok = m[0] == v
                 else:
                     ok = m[1] is None
+            elif kind == "direct-list":
+                ok = (m == v) if st == "ok" else (m is None)
             elif st == "ok":
                 ok = m[0] == v
             else:
@@ -200,7 +304,7 @@ def part_model_tie(ctx):
                 ok = m[0] is None or (form == "Pow" and v == "InvalidLiteral") or (kind == "int-oracle" and v == "TypeMismatch") \
                     or (form == "USub" and v == "OverflowException" and not (-(2**255) <= m[0] < 2**256))
             if not ok and bad is None:
-                bad = {"form": form, "expr": pyf(c), "real": f"{st}:{v}", "model": str(m)}
+                bad = {"form": form, "expr": str(c) if kind.startswith("direct") else pyf(c), "real": f"{st}:{v}", "model": str(m)}
         dist[form] = len(cases)
         if bad:
             broken.append(bad)
@@ -356,12 +460,66 @@ def make_misc_probes(ctx, npairs):
         for b in (True, False):
             probes.append(P.Probe("and", None, (a, b), f"{a} and {b}", ["bool", "bool"], "x0 and x1", (a, b), "bool"))
             probes.append(P.Probe("or", None, (a, b), f"{a} or {b}", ["bool", "bool"], "x0 or x1", (a, b), "bool"))
+    # ---- conversions of literals vs run-time conversions
+    D = 10**10
+    ctys = [(True, 8), (False, 8), (True, 128), (False, 256), (True, 256)] + rnd.sample(ALL_TYPES, 2)
+    for T in ctys:
+        tn = P.tname(T)
+        lo, hi = P.bounds(T)
+        ds = {0, D - 1, -D + 1, 15 * D // 10, -15 * D // 10, lo * D, lo * D - 1, lo * D - D + 1, lo * D - D, hi * D, hi * D + 1, hi * D + D - 1, hi * D + D}
+        for V in sorted(v for v in ds if -(2**167) <= v < 2**167)[:: (1 if ctx.tier == "thorough" else 2)] + [lo * D - 1 if lo * D - 1 >= -(2**167) else 0]:
+            probes.append(P.Probe("convert_dec_int", None, (V, int(T[0]), T[1]), f"convert({P.dec_lit(V)}, {tn})", ["decimal"], f"convert(x0, {tn})", (V,), tn))
+        if T[1] <= 256:
+            q = (2**167 - 1) // D
+            for v in sorted({x for x in (0, 1, -1, lo, hi, q, q + 1, -q, -q - 1, -q - 2) if lo <= x <= hi})[:6]:
+                probes.append(P.Probe("convert_int_dec", T, (v,), f"convert({v}, decimal)", [tn], "convert(x0, decimal)", (v,), "decimal"))
+        for m in sorted({1, T[1] // 8, 32}):
+            for val in sorted({0, 1, 2 ** (8 * m - 1) - 1, 2 ** (8 * m - 1), 2 ** (8 * m) - 1, rnd.randrange(2 ** (8 * m))})[:5]:
+                b = val.to_bytes(m, "big")
+                probes.append(P.Probe("convert_hex_int", None, (val * 64 + m, int(T[0]), T[1]), f"convert(0x{b.hex()}, {tn})", [f"bytes{m}"], f"convert(x0, {tn})", (b,), tn))
+        for b in (True, False):
+            probes.append(P.Probe("convert_bool_int", None, (int(b), int(T[0]), T[1]), f"convert({b}, {tn})", ["bool"], f"convert(x0, {tn})", (b,), tn))
+    # ---- list-literal indexing
+    lst = [7, 2**255, 9, 0]
+    for i in (0, 1, 3, 4, 5, 2**255):
+        probes.append(P.Probe("list_index", None, (i,), f"[{', '.join(map(str, lst))}][{i}]", ["uint256[4]", "uint256"], "x0[x1]", (lst, i), "uint256"))
     for n in (0, 1, 31, 32, 33, 64):
         data = bytes(rnd.randrange(256) for _ in range(n))
         lit = 'b"' + "".join(f"\\x{c:02x}" for c in data) + '"'
         probes.append(P.Probe("len", None, (n,), f"len({lit})", ["Bytes[64]"], "len(x0)", (data,), "uint256"))
         probes.append(P.Probe("keccak256", None, (n,), f"keccak256({lit})", ["Bytes[64]"], "keccak256(x0)", (data,), "bytes32"))
         probes.append(P.Probe("sha256", None, (n,), f"sha256({lit})", ["Bytes[64]"], "sha256(x0)", (data,), "bytes32"))
+    return probes
+
+
+def make_constant_probes(ctx, types, npairs):
+    """The same operator applications with the operands given as named constants: in the expression, as a nested
+    constant (C = A op B), as a constant of an imported module, and nested across modules."""
+    rnd = ctx.rng("constants")
+    probes = []
+    ops = [c for c in BINOPS if c[0] not in ("Pow", "LShift", "RShift")]
+    for T in types:
+        tn = P.tname(T)
+        lo, hi = P.bounds(T)
+        g = type_grid(T, rnd, extra=1)
+        must = [(lo, -1), (hi, 1), (-7, 3), (7, -3), (lo, lo), (hi, hi), (1, 0)]
+        for cls, sym, con in rnd.sample(ops, 5):
+            for a, b in pick_pairs(g, rnd, max(3, npairs // 3), must):
+                A, B = f"A{{i}}: constant({tn}) = {a}\n", f"B{{i}}: constant({tn}) = {b}\n"
+                shape = rnd.choice(["expr", "nested", "module", "module_nested"])
+                if shape == "expr":
+                    pre, lib, e = A + B, "", f"A{{i}} {sym} B{{i}}"
+                elif shape == "nested":
+                    pre, lib, e = A + B + f"C{{i}}: constant({tn}) = A{{i}} {sym} B{{i}}\n", "", "C{i}"
+                elif shape == "module":
+                    pre, lib, e = B, A, f"lib1.A{{i}} {sym} B{{i}}"
+                else:
+                    pre, lib, e = B + f"C{{i}}: constant({tn}) = lib1.A{{i}} {sym} B{{i}}\n", A, "C{i}"
+                probes.append(P.Probe(cls, T, (a, b), e, [tn, tn], f"x0 {sym} x1", (a, b), tn, pre=pre, libpre=lib))
+        for f in ("min", "max", "unsafe_add", "unsafe_sub", "unsafe_mul", "unsafe_div"):
+            for a, b in pick_pairs(g, rnd, 2, [(lo, -1), (hi, hi)]):
+                pre = f"A{{i}}: constant({tn}) = {a}\nB{{i}}: constant({tn}) = {b}\nC{{i}}: constant({tn}) = {f}(A{{i}}, B{{i}})\n"
+                probes.append(P.Probe(f, T, (a, b), "C{i}", [tn, tn], f"{f}(x0, x1)", (a, b), tn, pre=pre))
     return probes
 
 
@@ -376,6 +534,19 @@ def model_exprs(p):
         if p.form in ("floor", "ceil"):
             a = coqrun.hexlit(p.ops[0])
             return f"enc ({p.form}_fold {a}) ++ [1; {p.form}_spec {a}]"
+        o = [coqrun.hexlit(x) for x in p.ops]
+        if p.form == "convert_dec_int":
+            ty = coq_ty((bool(p.ops[1]), p.ops[2]))
+            return f"enc (literal_int (LDec {o[0]}) {ty}) ++ enco (convert_int_spec (SDec {o[0]}) {ty})"
+        if p.form == "convert_hex_int":
+            ty = coq_ty((bool(p.ops[1]), p.ops[2]))
+            return f"enc (literal_int (LHex ({o[0]} mod 64) ({o[0]} / 64)) {ty}) ++ enco (convert_int_spec (SBytesM ({o[0]} mod 64) ({o[0]} / 64)) {ty})"
+        if p.form == "convert_bool_int":
+            ty = coq_ty((bool(p.ops[1]), p.ops[2]))
+            bb = "true" if p.ops[0] else "false"
+            return f"enc (literal_int (LBool {bb}) {ty}) ++ enco (convert_int_spec (SBool {bb}) {ty})"
+        if p.form == "list_index":
+            return f"enc (fold_index [7; {coqrun.hexlit(2**255)}; 9; 0] {o[0]}) ++ enco (index_spec [7; {coqrun.hexlit(2**255)}; 9; 0] {o[0]})"
         return None
     ty = coq_ty(T)
     o = [coqrun.hexlit(x) for x in p.ops]
@@ -404,6 +575,11 @@ def model_exprs(p):
         return f"enc (typed {ty} (MulMod_fold {o[0]} {o[1]} {o[2]})) ++ enco (mulmod_spec {o[0]} {o[1]} {o[2]})"
     if p.form == "pow_mod256":
         return f"enc (typed {ty} (PowMod256_fold {o[0]} {o[1]})) ++ [1; PyInt.powmod {o[0]} {o[1]} (2 ^ 256)]"
+    if p.form == "convert_int_dec":
+        return f"enc (literal_decimal {o[0]}) ++ enco (convert_dec_spec {o[0]})"
+    if p.form == "convert" and len(p.ops) == 3:
+        ty2 = coq_ty((bool(p.ops[1]), p.ops[2]))
+        return f"enc (literal_int (LInt {o[0]}) {ty2}) ++ enco (convert_int_spec (SInt {o[0]}) {ty2})"
     if p.form == "as_wei_value":
         return f"enc (typed U256 (AsWeiValue_fold {o[1]} {o[0]} 0)) ++ enco (as_wei_spec {o[0]} {o[1]})"
     if p.form.startswith("unsafe_"):
@@ -464,6 +640,25 @@ def run_probes(ctx, probes, cfgs, tag, with_model=True):
         lk = "value" if lv else "reject"
         rk = "value" if rv else ("reject" if all(v == P.REJECT for v in rt_vals.values()) else "revert")
         combos[f"{lk}/{rk}"] = combos.get(f"{lk}/{rk}", 0) + 1
+        # every returned value must be a value of the declared return type (exact-or-revert; C03's oracle, checked here
+        # because the conversion probes reach type boundaries)
+        rng_ = None
+        if p.ret == "decimal":
+            rng_ = (-(2**167), 2**167 - 1)
+        elif p.ret.startswith("uint") and p.ret[4:].isdigit():
+            rng_ = (0, 2 ** int(p.ret[4:]) - 1)
+        elif p.ret.startswith("int") and p.ret[3:].isdigit():
+            rng_ = (-(2 ** (int(p.ret[3:]) - 1)), 2 ** (int(p.ret[3:]) - 1) - 1)
+        oor = [(c, v) for c, v in list(lit_vals.items()) + list(rt_vals.items()) if rng_ and isinstance(v, int) and not rng_[0] <= v <= rng_[1]]
+        if oor:
+            n_fail += 1
+            ok_cfgs = [c for c, v in rt_vals.items() if v == "revert"]
+            ctx.violation("failing-input", f"{p.form}: a value outside the range of the return type {p.ret} is returned instead of a revert",
+                          {"probe": p.ident(), "out_of_range": {c: str(v) for c, v in oor}, "range": [str(rng_[0]), str(rng_[1])],
+                           "configs_that_revert": ok_cfgs,
+                           "how": "compile the run-time side with vyper.compiler.compile_code under the named configuration, deploy, call with args"},
+                          key=f"c17:out-of-range-result:{p.form}")
+            continue
         if "revert" in lit_vals.values():
             lv.add("revert-of-folded-constant")
         if len(lv | rv) > 1 or (lv and len(lv) > 1):
@@ -563,7 +758,7 @@ def run(ctx):
         n, tie_broken = part_model_tie(ctx)
         total += n
     # paired probes: the property's own observation (independent of the Coq model)
-    probes = make_probes(ctx, types, npairs) + make_misc_probes(ctx, npairs)
+    probes = make_probes(ctx, types, npairs) + make_misc_probes(ctx, npairs) + make_constant_probes(ctx, types[:5] if ctx.tier == "quick" else types, npairs)
     n, nf, mism = run_probes(ctx, probes, cfgs, "q", with_model=model_ok)
     total += n
     failing += nf
@@ -585,6 +780,7 @@ def run(ctx):
         search_forms.add(TIE_FORM.get(b["form"], b["form"]))
     for m in mism:
         search_forms.add(m["probe"]["form"])
+    failing = sum(1 for v in ctx.violations if v["kind"] == "failing-input")  # known findings do not mask other reports
     if search_forms and not failing:
         n, nf = search(ctx, search_forms, cfgs)
         total += n
